@@ -520,6 +520,47 @@ mod verif_driver_compile {
         println!("VERIF-CASES fn=try_as_data n={n}");
     }
 
+    // ---- C09: the datum path (`compile_data_expr` / `compile_struct`, used for inline datums of outputs) follows the same
+    // convention as the redeemer path: constructor index kept for every case (also field-less ones), fields in order,
+    // text stored as its UTF-8 bytes whatever it looks like.
+    #[test]
+    fn compile_data_expr_structural() {
+        use plutus_data::TryIntoData as _;
+        let mut n = 0;
+        let want_tag = |i: u64| -> (u64, Option<u64>) { if i <= 6 { (121 + i, None) } else if i <= 127 { (1280 + (i - 7), None) } else { (102, Some(i)) } };
+        for ctor in [0usize, 1, 2, 6, 7, 127, 128, 1 << 20] {
+            for fields in [vec![], vec![num(1)], vec![num(2), num(1)], vec![tir::Expression::Struct(tir::StructExpr { constructor: 2, fields: vec![] })]] {
+                n += 1;
+                let s = tir::Expression::Struct(tir::StructExpr { constructor: ctor, fields: fields.clone() });
+                match quiet(|| compile_data_expr(&s)) {
+                    Ok(Ok(primitives::PlutusData::Constr(c))) => {
+                        let got: Vec<String> = c.fields.iter().map(|f| format!("{f:?}")).collect();
+                        let exp: Vec<String> = fields.iter().map(|f| format!("{:?}", f.try_as_data().unwrap())).collect();
+                        if (c.tag, c.any_constructor) != want_tag(ctor as u64) || got != exp {
+                            witness("c09_cardano/compile_struct#postcondition", "compile_struct", format!("constructor={ctor} fields={}", fields.len()), format!("tag={} any={:?} fields={got:?}", c.tag, c.any_constructor), "constructor tag of the case index, fields in order");
+                        }
+                    }
+                    other => witness("c09_cardano/compile_struct#postcondition", "compile_struct", format!("constructor={ctor} fields={}", fields.len()), format!("{other:?}"), "a Constr"),
+                }
+            }
+        }
+        for text in ["", "a", "hello", "0x", "0xcafe", "0xCAFE", "0xzz", "cafe", "0x0", "\u{e9}t\u{e9}", "0x\u{e9}"] {
+            n += 1;
+            let e = tir::Expression::String(text.to_string());
+            for (path, r) in [("compile_data_expr", quiet(|| compile_data_expr(&e))), ("try_as_data", quiet(|| e.try_as_data()))] {
+                match r {
+                    Ok(Ok(primitives::PlutusData::BoundedBytes(b))) => if b.to_vec() != text.as_bytes().to_vec() {
+                        witness("c09_cardano/str::as_data#postcondition", "as_data", format!("text {text:?} via {path}"), format!("bytes {:?}", b.to_vec()), "the UTF-8 bytes of the text");
+                    },
+                    other => witness("c09_cardano/str::as_data#postcondition", "as_data", format!("text {text:?} via {path}"), format!("{other:?}"), "a byte string"),
+                }
+            }
+        }
+        println!("VERIF-CASES fn=compile_struct n={n}");
+        println!("VERIF-CASES fn=compile_data_expr n={n}");
+        println!("VERIF-CASES fn=as_data n={n}");
+    }
+
     // ---- C02 (value preservation): the mint field is the exact per-class sum of what is minted minus what is
     // burned, over all mint and burn blocks; classes that cancel to zero disappear, nothing else is dropped.
     // BOUND: 2 policies x 2 names, amounts from {1, 2, 40, 2^62}, every (mint, burn) pair of single-asset blocks and
